@@ -46,3 +46,36 @@ pub fn run_controlled(prefix: &[usize], f: impl FnOnce()) -> Result<Trace, Strin
 pub fn main_wait_quiescent() {
     vs::wait_quiescent();
 }
+
+/// Stateless depth-first exploration of schedules with iterative preemption bounding: `run` executes
+/// the program once under the given choice prefix (default choices afterwards) and returns the
+/// recorded trace (None = the execution could not be used, e.g. it failed; alternatives of it are not
+/// expanded). Every alternative choice whose preemption cost stays within `bound` is explored.
+/// Returns the number of executions.
+pub fn dfs(bound: usize, mut stop: impl FnMut() -> bool, mut run: impl FnMut(&[usize]) -> Option<Trace>) -> u64 {
+    let mut stack: Vec<Vec<usize>> = vec![vec![]];
+    let mut n = 0u64;
+    while let Some(prefix) = stack.pop() {
+        if stop() {
+            break;
+        }
+        n += 1;
+        let Some(trace) = run(&prefix) else { continue };
+        for i in prefix.len()..trace.points.len() {
+            let p = &trace.points[i];
+            let mut cost = trace.preemptions_before(i);
+            if p.running_still_enabled {
+                cost += 1;
+            }
+            if cost > bound {
+                continue;
+            }
+            for alt in 1..p.enabled {
+                let mut np: Vec<usize> = trace.choices[..i].to_vec();
+                np.push(alt);
+                stack.push(np);
+            }
+        }
+    }
+    n
+}
